@@ -321,6 +321,114 @@ fn failing_writers(threads: usize, rounds: usize, yield_every: u64) -> Result<(u
     Ok(((threads * rounds) as u64, format!("{threads} threads (increment / failing op= / read) x {rounds}: cell holds {}", canon(&final_value))))
 }
 
+/// `log += open + close` on a shared string / array cell is ONE assignment: what each thread appends stays in one piece
+fn appends(threads: usize, per_thread: usize, yield_every: u64) -> Result<(u64, String), String> {
+    let interp = Interpreter::with_stdlib();
+    let Outcome::Value(Variable::Tuple(cells)) = real::parse_exec_in(&interp, "(mut \"\", mut [int] [])", 10_000).0 else { return Err("setup rejected".into()) };
+    let worker = parse_function(
+        "(s: mut string, a: mut [int], open: string, close: string, id: int, n: int) -> int { i := mut 0; while *i < n { i += 1; s += open + close; pair := [id, 0 - id]; first := [id]; second := [0 - id]; a += first + second; } return *i }",
+    )
+    .ok_or("append worker rejected")?;
+    let barrier = Arc::new(Barrier::new(threads));
+    let mut handles = Vec::new();
+    for t in 0..threads {
+        let (f, cells, barrier) = (worker.clone(), cells.clone(), barrier.clone());
+        handles.push(std::thread::Builder::new().stack_size(64 << 20).spawn(move || -> Result<(), String> {
+            verif::set_yield_every(if yield_every == 0 { 0 } else { yield_every });
+            let id = t as i64 + 1;
+            let code = f
+                .create_call(vec![cells[0].clone(), cells[1].clone(), Variable::String(Arc::from(format!("<{id}"))), Variable::String(Arc::from(format!("{id}>"))), Variable::Int(id), Variable::Int(per_thread as i64)])
+                .map_err(|e| format!("{e}"))?;
+            barrier.wait();
+            match real::guarded(|| code.exec()) {
+                Ok(Ok(_)) => Ok(()),
+                Ok(Err(e)) => Err(format!("failed with {e:?}")),
+                Err(p) => Err(format!("panicked at {}: {}", p.site(), p.short_msg())),
+            }
+        }).map_err(|e| format!("spawn: {e}"))?);
+    }
+    for h in handles {
+        h.join().map_err(|_| "worker thread died".to_string())??;
+    }
+    let (Variable::Mut(sc), Variable::Mut(ac)) = (&cells[0], &cells[1]) else { return Err("cells expected".into()) };
+    let text = match &*sc.variable.read().map_err(|_| "poisoned")? {
+        Variable::String(s) => s.to_string(),
+        other => return Err(format!("string cell holds {}", canon(other))),
+    };
+    // the string is a sequence of records `<k k>`
+    let mut rest = text.as_str();
+    let mut records = 0usize;
+    while !rest.is_empty() {
+        let ok = (1..=threads).any(|k| {
+            let rec = format!("<{k}{k}>");
+            if rest.starts_with(&rec) {
+                rest = &rest[rec.len()..];
+                true
+            } else {
+                false
+            }
+        });
+        if !ok {
+            return Err(format!("`s += open + close` from {threads} threads left a torn record at ...{}", truncate(rest, 30)));
+        }
+        records += 1;
+    }
+    if records != threads * per_thread {
+        return Err(format!("{records} records in the string cell, expected {}", threads * per_thread));
+    }
+    let arr: Vec<i64> = match &*ac.variable.read().map_err(|_| "poisoned")? {
+        Variable::Array(a) => a.iter().filter_map(|v| v.as_int().copied()).collect(),
+        other => return Err(format!("array cell holds {}", canon(other))),
+    };
+    if arr.len() != 2 * threads * per_thread || arr.chunks(2).any(|c| c.len() != 2 || c[0] <= 0 || c[1] != -c[0]) {
+        return Err(format!("`a += first + second` from {threads} threads left pairs that are not adjacent (length {})", arr.len()));
+    }
+    Ok(((threads * per_thread) as u64, format!("{threads} threads x {per_thread} two-part appends to a string cell and an array cell: all records whole")))
+}
+
+/// an expression that reads a shared cell once (`*c ** 2`, `*c * *d` with d constant ...) yields a value computed from
+/// ONE content of the cell, whatever another thread writes meanwhile
+fn single_reads(threads: usize, rounds: usize, yield_every: u64) -> Result<(u64, String), String> {
+    let cell = Arc::new(Mut { var_type: Type::Int, variable: RwLock::new(Variable::Int(3)) });
+    let writer = parse_function("(c: mut int, n: int) -> int { i := mut 0; while *i < n { i += 1; c = 5; c = 3; } return *i }").ok_or("writer rejected")?;
+    let exprs = ["*c ** 2", "*c * 1 + 0", "-(*c)", "!(*c)", "[*c; 2][1]", "(*c, 1).0", "*c << 1", "*c % 7", "(*c + 1) * 2", "*c | 0"];
+    let reader = parse_function(&format!(
+        "(c: mut int, n: int) -> [[int]] {{ out := mut [[int]] []; i := mut 0; while *i < n {{ i += 1; out += [[{}]]; }} return *out }}",
+        exprs.join(", ")
+    ))
+    .ok_or("reader rejected")?;
+    let f = |v: i64| -> Vec<i64> { vec![v * v, v, -v, !v, v, v, v << 1, v % 7, (v + 1) * 2, v] };
+    let allowed = [f(3), f(5)];
+    let barrier = Arc::new(Barrier::new(threads));
+    let mut handles = Vec::new();
+    for t in 0..threads {
+        let (g, cell, barrier) = (if t == 0 { writer.clone() } else { reader.clone() }, cell.clone(), barrier.clone());
+        handles.push(std::thread::Builder::new().stack_size(64 << 20).spawn(move || -> Result<Vec<Vec<i64>>, String> {
+            verif::set_yield_every(if yield_every == 0 { 0 } else { yield_every });
+            let code = g.create_call(vec![Variable::Mut(cell), Variable::Int(rounds as i64 * if t == 0 { 4 } else { 1 })]).map_err(|e| format!("{e}"))?;
+            barrier.wait();
+            match real::guarded(|| code.exec()) {
+                Ok(Ok(Variable::Array(rows))) => Ok(rows.iter().filter_map(|r| match r { Variable::Array(xs) => Some(xs.iter().filter_map(|v| v.as_int().copied()).collect()), _ => None }).collect()),
+                Ok(Ok(_)) => Ok(Vec::new()),
+                Ok(Err(e)) => Err(format!("failed with {e:?}")),
+                Err(p) => Err(format!("panicked at {}: {}", p.site(), p.short_msg())),
+            }
+        }).map_err(|e| format!("spawn: {e}"))?);
+    }
+    let mut rows = 0u64;
+    for h in handles {
+        for row in h.join().map_err(|_| "worker thread died".to_string())?? {
+            rows += 1;
+            for (k, got) in row.iter().enumerate() {
+                if !allowed.iter().any(|a| a[k] == *got) {
+                    return Err(format!("`{}` evaluated while another thread stores 5 and 3 gave {got}: no single content of the cell gives that (expected {} or {})", exprs[k], allowed[0][k], allowed[1][k]));
+                }
+            }
+        }
+    }
+    Ok((rows * exprs.len() as u64, format!("{} reader threads x {rounds} rounds x {} single-read expressions against one writer: every value comes from one content", threads - 1, exprs.len())))
+}
+
 /// one iterator value (`a~`) pulled from several threads: its position cell is advanced by the interpreter's own
 /// `i += 1`, so after T x K pulls the cursor stands at T x K (which elements each pull saw is not specified)
 fn shared_iterator(threads: usize, per_thread: usize, yield_every: u64) -> Result<(u64, String), String> {
@@ -488,6 +596,8 @@ pub fn child(spec: &str) {
             "code" => shared_code(threads, size),
             "failing" => failing_writers(threads.max(3), size, yld),
             "iterator" => shared_iterator(threads, size, yld),
+            "appends" => appends(threads, size, yld),
+            "reads" => single_reads(threads.max(2), size, yld),
             "printing" => printing_nested(threads.max(2), size, yld),
             other => Err(format!("unknown scenario {other}")),
         }
@@ -521,7 +631,9 @@ pub fn run(cfg: &Cfg, rep: &mut Report) {
         }
         let threads = *rng.pick(&[2usize, 2, 3, 4, 4, 8, 16]);
         let yld = *rng.pick(&[0usize, 0, 1, 2, 5]);
-        let (scenario, size) = match rng.below(16) {
+        let (scenario, size) = match rng.below(20) {
+            16 | 17 => ("appends".to_string(), *rng.pick(&[20usize, 100, 400])),
+            18 | 19 => ("reads".to_string(), *rng.pick(&[50usize, 300, 1000])),
             12 | 13 => ("iterator".to_string(), *rng.pick(&[50usize, 200, 800])),
             14 | 15 => ("printing".to_string(), *rng.pick(&[20usize, 100, 400])),
             0..=5 => (format!("cell{}", rng.below(OPS.len())), *rng.pick(&[3usize, 10, 50, 200, 1000])),
